@@ -101,7 +101,7 @@ fn value_for<D: Doc>(seed: u64, vi: u64, tier: Tier) -> Option<PrepDocLite<D>> {
         Ok(Ok(s)) => s,
         _ => return None,
     };
-    if b.len() + 256 > (1 << 17) - 4096 {
+    if b.len() + 8192 > ARENA_CAP {
         return None;
     }
     let mut canon_v = Vec::new();
@@ -289,6 +289,8 @@ impl DocFn for RunUnit<'_> {
                 Ok(None) => {
                     if rows[ri].family.is_none() {
                         ctx.count("skipped.unknown_family");
+                    } else if rows[ri].nested && !p.round_trip_ok {
+                        ctx.count("skipped.nested_tag_in_document_whose_round_trip_fails");
                     }
                 }
                 Ok(Some((digest, kind))) => {
